@@ -250,7 +250,9 @@ def check(ctx):
         ok = isinstance(s, ast.Subscript) and isinstance(s.slice, ast.Slice) and norm(s.value) == 'image' and \
             canon(s.slice.lower, sc) == canon(ast.parse('%s * t_data.page_size' % i, mode='eval').body, sc)
         last = fact_key('(%s + 1) * t_data.page_size > len(image)' % i, True) in g.fact_keys_at(n)
-        if ok and s.slice.upper is not None:
+        if ok and s.slice.upper is not None and norm(s.slice.upper) == 'len(image)':
+            ok = last                                   # image[a:len(image)] is image[a:]
+        elif ok and s.slice.upper is not None:
             ok = canon(s.slice.upper, sc) == canon(ast.parse('(%s + 1) * t_data.page_size' % i, mode='eval').body, sc)
         elif ok:
             ok = last
